@@ -27,7 +27,11 @@ def run(ctx: Ctx):
     ctx.add_model("MC_Fragments", mcf)
     ctx.exhaustive = True
     res = pipe_common.explore(ctx, 32 if quick else 500, n_qry=12, salt=2, keep_rows=True)
-    lines, out, r = pipe_common.validate_records(ctx, res, "C02")
+    # spec -> code: the record space of MC_Xmap through the real row constructor and writer (roundtrip.py)
+    from props import roundtrip
+    rt = roundtrip.explore(ctx, stride=5 if quick else 1)
+    ctx.notes["record_space_roundtrip"] = {"files": len(rt), "records": sum(x["n_records"] for x in rt)}
+    lines, out, r = pipe_common.validate_records(ctx, res + [{"lines": x["lines"]} for x in rt], "C02")
     for ln in lines:
         if ln["rec"]["ori"] == "-" or ln["rec"]["rest"] == "True":
             ctx.nontrivial((ln["tag"]["input"], ln["tag"]["mode"], ln["tag"]["file"], ln["rec"]["q"]))
